@@ -870,3 +870,84 @@ Qed.
 Theorem segment_eq_index_times_fuel_raw (x : inputsR) (s : species) : oracle_lengths x ->
   forall i, nth i (gl (I_traj_em x s)) 0 = nth i (gl (I_traj_idx x s)) 0 * nth i (Rfuel_burn (i_fm x)) 0.
 Proof. intros H. exact (segment_eq_index_times_fuel x s (aug_lengths_of x H)). Qed.
+
+(* ------------------------------------------------------------------------------------------- *)
+(* "exactly those components": a component contributes amounts iff it contributes fuel            *)
+(* (non-definitional content next to the read-backs total_eq_parts / total_fuel_eq_components)    *)
+(* ------------------------------------------------------------------------------------------- *)
+Theorem apu_absent_contributes_nothing (x : inputsR) : apu_on (i_cfg x) = false \/ i_apu x = None ->
+  (forall s, I_apu_em x s = None /\ I_apu_idx x s = None) /\ I_apu_fuel x = 0.
+Proof.
+  intros H. assert (E : I_apu x = None).
+  { unfold I_apu. destruct H as [H|H]; [rewrite H; reflexivity|rewrite H; destruct (apu_on (i_cfg x)); reflexivity]. }
+  unfold I_apu_em, I_apu_idx, I_apu_fuel. rewrite E. split; [intros s; split; reflexivity|reflexivity].
+Qed.
+
+Theorem apu_present_contributes_every_written_species (x : inputsR) a : I_apu x = Some a ->
+  (forall s, apu_has (i_cfg x) s = true -> exists v, I_apu_em x s = Some v) /\ I_apu_fuel x = a_fuel a * 900.
+Proof.
+  intros E. unfold I_apu_em, I_apu_fuel. rewrite E. split.
+  - intros s Hs. unfold apu_em, apu_idx. rewrite Hs. cbn [option_map]. eexists. reflexivity.
+  - unfold apu_fuel, apu_time. rnum. lra.
+Qed.
+
+Theorem apu_fuel_counted_only_with_amounts (x : inputsR) : I_apu_fuel x <> 0 ->
+  exists v, I_apu_em x CO2 = Some v.
+Proof.
+  intros H. destruct (I_apu x) as [a|] eqn:E.
+  - destruct (apu_present_contributes_every_written_species x a E) as [P _]. apply P. reflexivity.
+  - exfalso. apply H. unfold I_apu_fuel. rewrite E. reflexivity.
+Qed.
+
+Theorem gse_off_contributes_nothing (x : inputsR) : gse_on (i_cfg x) = false ->
+  (forall s, I_gse_em x s = None) /\ I_gse_fuel x = 0.
+Proof. intros H. unfold I_gse_em, I_gse_fuel. rewrite H. split; [intros s|]; reflexivity. Qed.
+
+Theorem gse_on_contributes_every_species (x : inputsR) : gse_on (i_cfg x) = true ->
+  forall s, exists v, I_gse_em x s = Some v.
+Proof.
+  intros H s. unfold I_gse_em, gse_em. rewrite H.
+  destruct (@gse_nominal RNum (i_class x)) as [[[[co2 nox] hc] co] pm]. eexists. reflexivity.
+Qed.
+
+Theorem gse_fuel_counted_only_with_amounts (x : inputsR) : I_gse_fuel x <> 0 -> forall s, exists v, I_gse_em x s = Some v.
+Proof.
+  intros H. apply gse_on_contributes_every_species. destruct (gse_on (i_cfg x)) eqn:E; [reflexivity|].
+  exfalso. apply H. unfold I_gse_fuel. rewrite E. reflexivity.
+Qed.
+
+(* trajectory accounting: climb-out and approach contribute neither fuel nor any amount nor any index from the LTO side *)
+Theorem lto_climb_approach_excluded_in_trajectory_mode (x : inputsR) : cd (i_cfg x) = CD_TRAJECTORY ->
+  tm_approach (lto_fuel (i_cfg x) (i_lto x)) = 0 /\ tm_climb (lto_fuel (i_cfg x) (i_lto x)) = 0
+  /\ forall s, tm_approach (gtm (I_lto_em x s)) = 0 /\ tm_climb (gtm (I_lto_em x s)) = 0
+               /\ tm_approach (gtm (I_lto_idx x s)) = 0 /\ tm_climb (gtm (I_lto_idx x s)) = 0.
+Proof.
+  intros M. unfold I_lto_em, lto_em, I_lto_idx, lto_idx, lto_fuel. rewrite M.
+  destruct (tm_mul lto_tims (l_ff (i_lto x))) as [[[f1 f2] f3] f4]. cbn [tm_zero_ac tm_approach tm_climb].
+  split; [reflexivity|]. split; [reflexivity|]. intros s.
+  destruct (lto_idx_raw _ _ _ _ s) as [[[[a b] c] d]|]; cbn; rnum; repeat split; lra.
+Qed.
+
+(* lto accounting: all four modes are counted, each as time in mode x fuel flow *)
+Theorem lto_all_modes_counted_in_lto_mode (x : inputsR) : cd (i_cfg x) = CD_LTO ->
+  lto_fuel (i_cfg x) (i_lto x) = tm_mul lto_tims (l_ff (i_lto x)).
+Proof. intros M. unfold lto_fuel. rewrite M. reflexivity. Qed.
+
+(* ---- non-vacuity of the trajectory NOx closure: a point where NO is non-zero ---- *)
+Lemma ex_NO_at_2 : nth 2 (gl (I_traj_idx (ex_inputs CD_LTO) NO)) 0 = 12 * tm_approach (@sp_no RNum).
+Proof.
+  unfold I_traj_idx, traj_idx, traj_idx_raw, I_orc. cbn [ex_inputs i_cfg i_fuel i_fm i_ncl i_nde i_orc_traj i_sls i_lto].
+  change (const_has (ex_cfg CD_LTO) NO) with false. change (traj_var_has (ex_cfg CD_LTO) NO) with true. cbv iota.
+  rewrite lookup_aug. cbn [lookup species_eqb ex_orc option_map gl].
+  rewrite nth_zo. change (in_window _ _ 2) with true. cbv iota.
+  rewrite nth_part by reflexivity. cbn [length Nat.ltb Nat.leb nth ex_sls ex_lto l_ff].
+  unfold thrust_cat. cbn [tm_idle tm_approach tm_climb]. rnum.
+  destruct (Rleb 0.6 ((0.25 + 0.5) / (2 / 1))) eqn:E1; [apply Rleb_true in E1; lra|].
+  destruct (Rltb ((0.5 + 0.9) / (2 / 1)) 0.6) eqn:E2; [apply Rltb_true in E2; lra|].
+  cbn [tm_get]. reflexivity.
+Qed.
+
+Lemma ex_NO_at_2_nonzero : nth 2 (gl (I_traj_idx (ex_inputs CD_LTO) NO)) 0 <> 0.
+Proof.
+  rewrite ex_NO_at_2. unfold sp_no, noA, no2A, honoA, c100, c100i. cbn [tm_approach]. rnum. lra.
+Qed.
